@@ -46,45 +46,67 @@ def check_case(ctx, cs):
             if ok and same_def(r, sh):
                 ctx.violate("Surface.ctrlpts2d.setter", tg, small, {"field": same_def(r, sh)})
     elif op == "extract_curves":
-        ok, ex = _try(ctx, "construct.extract_curves", tg, small, lambda: construct.extract_curves(obj))
-        if not ok:
+        def extract_and_compare(expected, extra):
+            ok, ex = _try(ctx, "construct.extract_curves", tg + extra, small, lambda: construct.extract_curves(obj))
+            if not ok:
+                return None
+            for d in ("u", "v"):
+                if len(ex[d]) != len(expected[d]):
+                    ctx.violate("construct.extract_curves", tg + extra + ["dir=" + d, "count"], small, {"expected": len(expected[d]), "got": len(ex[d])})
+                    return None
+                for i, (a, e) in enumerate(zip(ex[d], expected[d])):
+                    bad = same_def(project(a), e)
+                    if bad:
+                        ctx.violate("construct.extract_curves", tg + extra + ["dir=" + d], small, {"index": i, "field": bad})
+                        return None
+            return ex
+        ex = extract_and_compare(o["ex"], [])
+        if ex is None:
             return
-        for d in ("u", "v"):
-            if len(ex[d]) != len(o["ex"][d]):
-                ctx.violate("construct.extract_curves", tg + ["dir=" + d, "count"], small, {"expected": len(o["ex"][d]), "got": len(ex[d])})
-                return
-            for i, (a, e) in enumerate(zip(ex[d], o["ex"][d])):
-                bad = same_def(project(a), e)
-                if bad:
-                    ctx.violate("construct.extract_curves", tg + ["dir=" + d], small, {"index": i, "field": bad})
-                    return
         for cdir, key, k in (("u", "v", 0), ("v", "u", 1)):
-            ok, s2 = _try(ctx, "construct.construct_surface", tg + ["dir=" + cdir], small,
-                          lambda: construct.construct_surface(cdir, *ex[key], degree=sh["deg"][k], knotvector=kvf[k]))
-            if ok:
-                bad = same_def(project(s2), sh)
-                if bad:
-                    ctx.violate("construct.construct_surface", tg + ["dir=" + cdir], small, {"field": bad})
+            for rep in (1, 2):          # the same sections are used twice: construction must not consume or alter them
+                t2 = tg + ["dir=" + cdir] + (["repeated"] if rep == 2 else [])
+                ok, s2 = _try(ctx, "construct.construct_surface", t2, small,
+                              lambda: construct.construct_surface(cdir, *ex[key], degree=sh["deg"][k], knotvector=kvf[k]))
+                if ok:
+                    bad = same_def(project(s2), sh)
+                    if bad:
+                        ctx.violate("construct.construct_surface", t2, small, {"field": bad})
+        # the same surface object after an in-place change: the extraction follows the current control net
+        ok, _r = _try(ctx, "operations.flip", tg + ["inplace"], small, lambda: operations.flip(obj, inplace=True))
+        if ok:
+            extract_and_compare(o["ex2"], ["after_flip"])
     elif op == "extract_surfaces":
-        ok, ex = _try(ctx, "construct.extract_surfaces", tg, small, lambda: construct.extract_surfaces(obj))
-        if not ok:
+        def extract_and_compare(expected, extra):
+            ok, ex = _try(ctx, "construct.extract_surfaces", tg + extra, small, lambda: construct.extract_surfaces(obj))
+            if not ok:
+                return None
+            for d in ("uv", "uw", "vw"):
+                if len(ex[d]) != len(expected[d]):
+                    ctx.violate("construct.extract_surfaces", tg + extra + ["set=" + d, "count"], small, {"expected": len(expected[d]), "got": len(ex[d])})
+                    return None
+                for i, (a, e) in enumerate(zip(ex[d], expected[d])):
+                    bad = same_def(project(a), e)
+                    if bad:
+                        ctx.violate("construct.extract_surfaces", tg + extra + ["set=" + d], small, {"index": i, "field": bad})
+                        return None
+            return ex
+        ex = extract_and_compare(o["ex"], [])
+        if ex is None:
             return
-        for d in ("uv", "uw", "vw"):
-            if len(ex[d]) != len(o["ex"][d]):
-                ctx.violate("construct.extract_surfaces", tg + ["set=" + d, "count"], small, {"expected": len(o["ex"][d]), "got": len(ex[d])})
-                return
-            for i, (a, e) in enumerate(zip(ex[d], o["ex"][d])):
-                bad = same_def(project(a), e)
-                if bad:
-                    ctx.violate("construct.extract_surfaces", tg + ["set=" + d], small, {"index": i, "field": bad})
-                    return
         for cdir, key, k in (("w", "uv", 2), ("v", "uw", 1), ("u", "vw", 0)):
-            ok, v2 = _try(ctx, "construct.construct_volume", tg + ["dir=" + cdir], small,
-                          lambda: construct.construct_volume(cdir, *ex[key], degree=sh["deg"][k], knotvector=kvf[k]))
-            if ok:
-                bad = same_def(project(v2), sh)
-                if bad:
-                    ctx.violate("construct.construct_volume", tg + ["dir=" + cdir], small, {"field": bad})
+            for rep in (1, 2):          # the same sections are used twice
+                t2 = tg + ["dir=" + cdir] + (["repeated"] if rep == 2 else [])
+                ok, v2 = _try(ctx, "construct.construct_volume", t2, small,
+                              lambda: construct.construct_volume(cdir, *ex[key], degree=sh["deg"][k], knotvector=kvf[k]))
+                if ok:
+                    bad = same_def(project(v2), sh)
+                    if bad:
+                        ctx.violate("construct.construct_volume", t2, small, {"field": bad})
+        vec = [float(x) for x in frv(o["vec"])]
+        ok, _r = _try(ctx, "operations.translate", tg + ["inplace"], small, lambda: operations.translate(obj, vec, inplace=True))
+        if ok:
+            extract_and_compare(o["ex2"], ["after_translate"])
     elif op in ("transpose", "flip"):
         fn = operations.transpose if op == "transpose" else operations.flip
         ok, r = _try(ctx, "operations." + op, tg, small, lambda: fn(obj))
@@ -112,11 +134,15 @@ def check_case(ctx, cs):
                         break
     elif op == "sweep":
         vec = [float(x) for x in frv(o["vec"])]
-        ok, r = _try(ctx, "sweeping.sweep_vector", tg, small, lambda: sweeping.sweep_vector(obj, vec))
-        if ok:
-            bad = same_def(project(r), o["res"])
-            if bad:
-                ctx.violate("sweeping.sweep_vector", tg, small, {"field": bad, "got_size": list(r._control_points_size), "expected_size": o["res"]["size"]})
+        for rep in (1, 2):              # sweeping the same object twice gives the same result and leaves it alone
+            t2 = tg + (["repeated"] if rep == 2 else [])
+            ok, r = _try(ctx, "sweeping.sweep_vector", t2, small, lambda: sweeping.sweep_vector(obj, vec))
+            if ok:
+                bad = same_def(project(r), o["res"])
+                if bad:
+                    ctx.violate("sweeping.sweep_vector", t2, small, {"field": bad, "got_size": list(r._control_points_size), "expected_size": o["res"]["size"]})
+            if same_def(project(obj), sh):
+                ctx.violate("sweeping.sweep_vector", t2 + ["input_modified"], small, {"field": same_def(project(obj), sh)})
     elif op == "index":
         size = sh["size"]
         P = fpts(sh["P"])
